@@ -73,6 +73,14 @@ def systems(tier):
     rwx2 = dict(resname="S", start=2, stop=4, normal=(1.0, 0.0, 0.0), angle=95.0)
     out.append(dict(types=["CH6"], molecules=[("CH6", 1)], box=BOX, grid=[[0.75, 2.0, 0.75]] + GRID, rw=[rwx2, rwz], kwargs=dict(nrewind=3, maxiter=4)))
     out.append(dict(types=["CH6"], molecules=[("CH6", 1)], box=BOX, grid=[[0.75, 2.0, 0.75]] + GRID, rw=[rwz, rwx2], kwargs=dict(nrewind=3, maxiter=4)))
+    # normals that are not unit vectors with a cone that binds (body diagonals lie 54.7 degrees from an axis, face diagonals
+    # 45 / 60 / 90 degrees from another face diagonal)
+    out.append(dict(types=["CH5"], molecules=[("CH5", 1)], box=BOX, grid=[[2.0, 2.0, 0.75]] + GRID, bundle="axis+diag14", kwargs=dict(nrewind=3, maxiter=4),
+                    rw=dict(resname="S", start=2, stop=6, normal=(0.0, 0.0, 2.0), angle=50.0), devs=1))
+    out.append(dict(types=["CH5"], molecules=[("CH5", 1)], box=BOX, grid=[[0.75, 0.75, 2.0]] + GRID, bundle="axis+face18", kwargs=dict(nrewind=3, maxiter=4),
+                    rw=dict(resname="S", start=2, stop=6, normal=(1.0, 1.0, 0.0), angle=50.0), devs=1))
+    out.append(dict(types=["CH5"], molecules=[("CH5", 1)], box=BOX, grid=[[2.0, 2.0, 0.75]] + GRID, bundle="axis+diag14", kwargs=dict(nrewind=3, maxiter=4),
+                    rw=dict(resname="S", start=2, stop=6, normal=(0.0, 0.0, 0.25), angle=60.0), devs=1))
     both = [dict(resname="S", start=2, stop=6, normal=(1.0, 0.0, 0.0), angle=95.0), dict(resname="S", start=2, stop=6, normal=(0.0, 0.0, 1.0), angle=95.0)]
     out.append(dict(types=["CH5"], molecules=[("CH5", 1)], box=BOX, grid=[[0.75, 2.0, 0.75]] + GRID, rw=both, bundle="axis+diag14", kwargs=dict(nrewind=3, maxiter=4)))
     out.append(dict(types=["CH5"], molecules=[("CH5", 1)], box=BOX, grid=[[0.75, 2.0, 0.75]] + GRID, rw=both[::-1], bundle="axis+diag14", kwargs=dict(nrewind=3, maxiter=4)))
